@@ -94,5 +94,13 @@ func H_C01_Transfer(v *verifrt.T) {
 		v.Assert(len(e.logger.records) == 0, "C01 content that does not match its announced hash is never logged as received")
 		v.Assert(status == sts.ConfirmFailed, "C01 a mismatch is reported as failed so that the sender transmits again")
 		v.Reach("rejected")
+		// ... and transmitting it again repairs it: the same parts, intact this time
+		for _, idx := range order {
+			v.Assert(e.sendPart("a", "", h1, size, bounds[idx], bounds[idx+1], "v1") == nil, "C01 a part of a failed file can be transmitted again")
+		}
+		v.Quiesce()
+		v.Assert(v.FileIs(filepath.Join(e.final, "a"), "v1"), "C01 a file that failed validation is delivered once it has been transmitted again intact")
+		v.Assert(e.s.GetFileStatus("a", v.Now()) == sts.ConfirmPassed, "C01 the repaired file is confirmed")
+		v.Assert(e.logger.count("a", h1) == 1, "C01 the repaired file is logged once under its announced hash")
 	}
 }
